@@ -1,13 +1,18 @@
-(* C16 — Connection lifecycle.  Statements only; proofs are in C16/C16Proofs.v, C16/C16Thms.v.
-   `exec c init h = Some (s, tr)`: the history h lies in the property's alphabet (C16Model.enabled),
+(* C16 — Connection lifecycle.  Statements only; proofs are in C16/C16Proofs.v, C16/C16Thms.v, C16/C16Keep.v,
+   C16/C16Reconnect.v, C16/C16Passive.v.
+   `exec c (init c) h = Some (s, tr)`: the history h lies in the property's alphabet (C16Model.enabled),
    s is the state it leads to and tr everything the probes P0..P3, the dispatcher, the noise
    handshake and the application observed.  No bound on the length of h.  c ranges over all options
-   (reconnect, passive, ping) and over the code with / without the two network-layer guards.        *)
-From YV Require Import Common.Tac C16.C16Model C16.C16Proofs C16.C16Thms C16.C16Reconnect.
+   (reconnect, passive, ping, prekeys never uploaded yes/no) and over the code with / without the two
+   network-layer guards.  Stack: network | P0 | segments | noise | coder | P1 | axolotl control |
+   (auth, iq, P2) | interface | P3 - P2 and P3 are above the control layer.  The alphabet includes the
+   answers to the control layer's set-keys upload (EKeysResult, EKeysError), so every theorem below is
+   about histories through the passive login and the reboot of the connection as well.                *)
+From YV Require Import Common.Tac C16.C16Model C16.C16Proofs C16.C16Thms C16.C16Keep C16.C16Reconnect C16.C16Passive.
 
 (* one CONNECTED at every position, one auth event and one handshake per dispatcher-connected;
    no dispatcher is ever replaced while live *)
-Theorem C16_connect_once : forall c h s tr, exec c init h = Some (s, tr) ->
+Theorem C16_connect_once : forall c h s tr, exec c (init c) h = Some (s, tr) ->
   orphans s = 0%N /\
   (forall p, In p [0; 1; 2; 3]%N -> countb (is_up_at p) tr = count_ev ev_disp_connected h) /\
   (forall p, In p [0; 1; 2]%N -> countb (is_auth_at p) tr = count_ev ev_disp_connected h) /\
@@ -15,13 +20,13 @@ Theorem C16_connect_once : forall c h s tr, exec c init h = Some (s, tr) ->
 Proof. exact connect_once_thm. Qed.
 Print Assumptions C16_connect_once.
 
-Theorem C16_authed_once : forall c h s tr, exec c init h = Some (s, tr) ->
+Theorem C16_authed_once : forall c h s tr, exec c (init c) h = Some (s, tr) ->
   (forall p, In p [0; 1; 2]%N -> countb (is_authed_at p) tr = count_ev ev_success h) /\
   countb is_app_success tr = count_ev ev_success h.
 Proof. exact authed_once_thm. Qed.
 Print Assumptions C16_authed_once.
 
-Theorem C16_failure_closes : forall c h s tr, exec c init h = Some (s, tr) ->
+Theorem C16_failure_closes : forall c h s tr, exec c (init c) h = Some (s, tr) ->
   enabled c s EFailure = true ->
   In (OApp AFailure) (snd (step c s EFailure)) /\
   In ODispDisconnect (snd (step c s EFailure)) /\
@@ -31,7 +36,7 @@ Theorem C16_failure_closes : forall c h s tr, exec c init h = Some (s, tr) ->
 Proof. exact failure_closes_thm. Qed.
 Print Assumptions C16_failure_closes.
 
-Theorem C16_stream_error_delivered_and_closes : forall c h s tr k, exec c init h = Some (s, tr) ->
+Theorem C16_stream_error_delivered_and_closes : forall c h s tr k, exec c (init c) h = Some (s, tr) ->
   enabled c s (EStreamError k) = true ->
   In (OApp (AStreamError k)) (snd (step c s (EStreamError k))) /\
   In ODispDisconnect (snd (step c s (EStreamError k))) /\
@@ -45,30 +50,42 @@ Print Assumptions C16_stream_error_delivered_and_closes.
 
 (* directly above the network layer: a dispatcher is created only when idle, announced up at most
    once, and whatever was attempted or up is announced down exactly once (mon_run); every other
-   position sees the same announcements in the same order, the missing ones being exactly the
-   queued ones *)
-Theorem C16_down_once : forall c h s tr, exec c init h = Some (s, tr) ->
+   position - below the control layer (P1), above it (P2) and the application (P3) - sees the same
+   announcements in the same order, the missing ones being exactly the queued ones.  In particular the
+   DISCONNECTED of the connection the control layer reboots reaches P2 and P3, before the CONNECTED of
+   the next one. *)
+Theorem C16_down_once : forall c h s tr, exec c (init c) h = Some (s, tr) ->
   mon_run MIdle tr = Some (mon_of (ns s)) /\
   (forall p, In p [1; 2; 3]%N -> proj 0 tr = proj p tr ++ map ADown (dq s)).
 Proof. exact down_once_thm. Qed.
 Print Assumptions C16_down_once.
 
-Theorem C16_no_write_when_down : forall c h s tr, exec c init h = Some (s, tr) ->
-  countb is_down_write tr = 0%nat /\ countb is_raise tr = 0%nat.
+(* nothing is written to a connection that is down; the only exception that escapes an entry point is the
+   one AxolotlControlLayer.onSentKeysError raises for an error reply to the set-keys upload *)
+Theorem C16_no_write_when_down : forall c h s tr, exec c (init c) h = Some (s, tr) ->
+  countb is_down_write tr = 0%nat /\ countb is_raise tr = count_ev ev_keys_error h.
 Proof. exact no_write_when_down_thm. Qed.
 Print Assumptions C16_no_write_when_down.
 
-Theorem C16_fresh_login : forall c h s tr, exec c init h = Some (s, tr) ->
-  (ns s = NsConnecting -> nz s = NzInit) /\
-  (ns s = NsDisconnected -> dq s = [] -> nz s = NzInit) /\
+(* a later connect starts fresh: while connecting, and whenever down with the queue drained, the noise
+   state is init and the keep-alive state is empty (no thread, no ping outstanding); every
+   dispatcher-connected writes the header on an up connection and starts one handshake whose passive
+   flag is the stack property as the control layer has just set it (passive iff it was already, or
+   prekeys are waiting) *)
+Theorem C16_fresh_login : forall c h s tr, exec c (init c) h = Some (s, tr) ->
+  (ns s = NsConnecting -> nz s = NzInit /\ pth s = false /\ pq s = []) /\
+  (ns s = NsDisconnected -> dq s = [] -> nz s = NzInit /\ pth s = false /\ pq s = []) /\
   (enabled c s EDispConnected = true ->
-     In (OHandshake (c_passive c)) (snd (step c s EDispConnected)) /\
+     let s1 := fst (step c s EDispConnected) in
+     psv s1 = (psv s || (um s || ud s)) /\
+     In (OHandshake (psv s1)) (snd (step c s EDispConnected)) /\
+     In (OProbe 2 (PAuth (psv s1))) (snd (step c s EDispConnected)) /\
      In (OWrite WHeader true) (snd (step c s EDispConnected)) /\
-     nz (fst (step c s EDispConnected)) = NzHandshake).
+     nz s1 = NzHandshake).
 Proof. exact fresh_login_thm. Qed.
 Print Assumptions C16_fresh_login.
 
-Theorem C16_auto_reconnect : forall c h s tr k, exec c init h = Some (s, tr) ->
+Theorem C16_auto_reconnect : forall c h s tr k, exec c (init c) h = Some (s, tr) ->
   stanza_ok s = true ->
   exists s2 tr2, exec c s [EStreamError k; ELoop] = Some (s2, tr2) /\
     existsb is_create tr2 = (c_reconnect c && negb (is_conflict k)) /\
@@ -76,45 +93,48 @@ Theorem C16_auto_reconnect : forall c h s tr k, exec c init h = Some (s, tr) ->
 Proof. exact auto_reconnect_thm. Qed.
 Print Assumptions C16_auto_reconnect.
 
-(* a connection is opened only on request or by the loop delivering DISCONNECTED with the reconnect
-   flag set, and the flag is set only by a non-conflict stream error with the option on *)
-Theorem C16_auto_reconnect_only : forall c h s tr e, exec c init h = Some (s, tr) ->
+(* a connection is opened only on request or by the loop delivering DISCONNECTED with the interface
+   layer's reconnect flag or the control layer's reboot flag set; the former is set only by a
+   non-conflict stream error with the option on, the latter only by the result of the set-keys upload *)
+Theorem C16_auto_reconnect_only : forall c h s tr e, exec c (init c) h = Some (s, tr) ->
   enabled c s e = true ->
   (existsb is_create (snd (step c s e)) = true ->
-     e = EConnectReq \/ e = EConnectCall \/ (e = ELoop /\ recon s = true)) /\
+     e = EConnectReq \/ e = EConnectCall \/ (e = ELoop /\ (recon s = true \/ rb s = true))) /\
   (recon (fst (step c s e)) = true ->
-     recon s = true \/ (c_reconnect c = true /\ exists k, e = EStreamError k /\ k <> KConflict)).
+     recon s = true \/ (c_reconnect c = true /\ exists k, e = EStreamError k /\ k <> KConflict)) /\
+  (rb (fst (step c s e)) = true -> rb s = true \/ e = EKeysResult).
 Proof. exact auto_reconnect_only_thm. Qed.
 Print Assumptions C16_auto_reconnect_only.
 
-(* the interface layer's reconnect bookkeeping, for whole histories.  auto_creates = dispatchers created
-   in reaction to events other than the application's connect request / call; b2n (recon s) = 1 while a
-   reconnect is pending.  From any reachable state s and any continuation h2: the connections opened by
-   the stack on its own plus the one still pending = the one that was pending at s plus one per
-   non-conflict stream error in h2 (none when the option is off); every created dispatcher is either
-   such an automatic one or answers a connect request. *)
+(* the bookkeeping of automatic connects, for whole histories.  auto_creates = dispatchers created in
+   reaction to events other than the application's connect request / call; b2n (recon s) = 1 while the
+   interface layer's reconnect is pending, b2n (rb s) = 1 while the control layer's reboot is.  From any
+   reachable state s and any continuation h2: the connections opened by the stack on its own plus the
+   pending ones = those pending at s plus one per non-conflict stream error in h2 (none when the option is
+   off) plus one per confirmed set-keys upload; every created dispatcher is either such an automatic one
+   or answers a connect request. *)
 Theorem C16_auto_reconnect_exactly_once : forall c h s tr h2 s2 tr2,
-  exec c init h = Some (s, tr) -> exec c s h2 = Some (s2, tr2) ->
-  (auto_creates c s h2 + b2n (recon s2) =
-   b2n (recon s) + (if c_reconnect c then count_ev ev_reconnecting_error h2 else 0))%nat /\
+  exec c (init c) h = Some (s, tr) -> exec c s h2 = Some (s2, tr2) ->
+  (auto_creates c s h2 + b2n (recon s2) + b2n (rb s2) =
+   b2n (recon s) + b2n (rb s) + (if c_reconnect c then count_ev ev_reconnecting_error h2 else 0)
+   + count_ev ev_keys_result h2)%nat /\
   countb is_create tr2 = (auto_creates c s h2 + req_creates c s h2)%nat.
 Proof. exact auto_reconnect_count_thm. Qed.
 Print Assumptions C16_auto_reconnect_exactly_once.
 
-(* from the start (nothing pending): no automatic connect without a preceding stream error, never with
-   the option off, never more than one per non-conflict stream error; holds for every prefix of every
-   history since every prefix is a history *)
-Theorem C16_no_auto_connect_without_stream_error : forall c h s tr, exec c init h = Some (s, tr) ->
-  (auto_creates c init h + b2n (recon s) =
-   if c_reconnect c then count_ev ev_reconnecting_error h else 0)%nat /\
-  countb is_create tr = (auto_creates c init h + req_creates c init h)%nat.
+(* from the start (nothing pending): no automatic connect without a preceding stream error or confirmed
+   upload; holds for every prefix of every history since every prefix is a history *)
+Theorem C16_no_auto_connect_without_stream_error : forall c h s tr, exec c (init c) h = Some (s, tr) ->
+  (auto_creates c (init c) h + b2n (recon s) + b2n (rb s) =
+   (if c_reconnect c then count_ev ev_reconnecting_error h else 0) + count_ev ev_keys_result h)%nat /\
+  countb is_create tr = (auto_creates c (init c) h + req_creates c (init c) h)%nat.
 Proof. exact auto_reconnect_count_init_thm. Qed.
 Print Assumptions C16_no_auto_connect_without_stream_error.
 
 (* a pending reconnect: the network is down, the DISCONNECTED of the stream error is still queued, the
    loop run that delivers it opens exactly one connection and clears the flag; no other event opens a
    connection or clears the flag meanwhile *)
-Theorem C16_pending_reconnect_runs_once : forall c h s tr, exec c init h = Some (s, tr) ->
+Theorem C16_pending_reconnect_runs_once : forall c h s tr, exec c (init c) h = Some (s, tr) ->
   recon s = true ->
   ns s = NsDisconnected /\ enabled c s ELoop = true /\
   countb is_create (snd (step c s ELoop)) = 1%nat /\
@@ -125,20 +145,75 @@ Theorem C16_pending_reconnect_runs_once : forall c h s tr, exec c init h = Some 
 Proof. exact pending_reconnect_thm. Qed.
 Print Assumptions C16_pending_reconnect_runs_once.
 
+(* the control layer's reboot, pending (_reboot_connection set): the network is down, nothing is left to
+   upload, no reconnect of the interface layer is pending, the DISCONNECTED of the passive connection is
+   still queued; the loop run that delivers it opens exactly one connection, clears the flag, switches
+   passive off, delivers the DISCONNECTED to the protocol layers (P2) and the application (P3) and leaves
+   the keep-alive state empty; no other event opens a connection or clears the flag meanwhile *)
+Theorem C16_pending_reboot_runs_once : forall c h s tr, exec c (init c) h = Some (s, tr) ->
+  rb s = true ->
+  ns s = NsDisconnected /\ enabled c s ELoop = true /\ um s = false /\ ud s = false /\ recon s = false /\
+  (let s1 := fst (step c s ELoop) in
+   countb is_create (snd (step c s ELoop)) = 1%nat /\ rb s1 = false /\ psv s1 = false /\ um s1 = false /\
+   ud s1 = false /\ ns s1 = NsConnecting /\
+   In (OProbe 2 (PDisconnected (hd RNone (dq s)))) (snd (step c s ELoop)) /\
+   In (OProbe 3 (PDisconnected (hd RNone (dq s)))) (snd (step c s ELoop)) /\
+   pth s1 = false /\ pq s1 = []) /\
+  (forall e, enabled c s e = true -> e <> ELoop ->
+     countb is_create (snd (step c s e)) = 0%nat /\ rb (fst (step c s e)) = true /\
+     ns (fst (step c s e)) = NsDisconnected).
+Proof. exact pending_reboot_thm. Qed.
+Print Assumptions C16_pending_reboot_runs_once.
+
+(* the reboot end to end: the set-keys result, the loop run, the next connection coming up.  Every
+   position sees DISCONNECTED for the passive connection and then CONNECTED for the next one, exactly one
+   connection is opened (by the stack itself), its login is active, and the keep-alive state of the
+   passive connection (thread, outstanding ping) is gone *)
+Theorem C16_reboot : forall c h s tr, exec c (init c) h = Some (s, tr) ->
+  enabled c s EKeysResult = true ->
+  exists s2 tr2, exec c s [EKeysResult; ELoop; EDispConnected] = Some (s2, tr2) /\
+    (forall p, In p [0; 1; 2; 3]%N -> proj p tr2 = [ADown RNone; AUp]) /\
+    countb is_create tr2 = 1%nat /\ auto_creates c s [EKeysResult; ELoop; EDispConnected] = 1%nat /\
+    In (OHandshake false) tr2 /\ countb is_passive_login tr2 = 0%nat /\
+    ns s2 = NsConnected /\ psv s2 = false /\ um s2 = false /\ ud s2 = false /\ rb s2 = false /\
+    pth s2 = false /\ pq s2 = [].
+Proof. exact reboot_thm. Qed.
+Print Assumptions C16_reboot.
+
+(* the prekeys are uploaded exactly at the success of a passive login that has keys waiting, on an up
+   connection *)
+Theorem C16_upload_on_passive_success : forall c h s tr, exec c (init c) h = Some (s, tr) ->
+  enabled c s ESuccess = true ->
+  countb (fun o => match o with OWrite WKeys _ => true | _ => false end) (snd (step c s ESuccess)) =
+    (if psv s && um s then 1%nat else 0%nat) /\
+  (psv s && um s = true -> In (OWrite WKeys true) (snd (step c s ESuccess)) /\
+                           kp (fst (step c s ESuccess)) = true /\ um (fst (step c s ESuccess)) = false).
+Proof. exact upload_on_passive_success_thm. Qed.
+Print Assumptions C16_upload_on_passive_success.
+
+(* once passive is off and nothing is left to upload (the state after a reboot) it stays so: every later
+   login of the history is active *)
+Theorem C16_active_stays_active : forall c h s tr h2 s2 tr2,
+  exec c (init c) h = Some (s, tr) -> is_active s = true -> exec c s h2 = Some (s2, tr2) ->
+  is_active s2 = true /\ countb is_passive_login tr2 = 0%nat.
+Proof. exact active_stays_active_thm. Qed.
+Print Assumptions C16_active_stays_active.
+
 (* a disconnect request of the application, a login failure, a stream error without reconnect (conflict
    or option off) and a socket error / peer close of a connection that is up or being established -
-   also when that connection is the automatic reconnect attempt - end in DISCONNECTED with nothing
-   pending, and the stack stays down and opens no connection until the application asks for one *)
+   also when that connection is the automatic reconnect attempt or the reboot's - end in DISCONNECTED with
+   nothing pending, and the stack stays down and opens no connection until the application asks for one *)
 Theorem C16_session_end_stays_down : forall c h s tr e mid s1 tr1,
-  exec c init h = Some (s, tr) ->
+  exec c (init c) h = Some (s, tr) ->
   ends_session c s e = true ->
   exec c s (e :: mid) = Some (s1, tr1) ->
   count_ev ev_connect mid = 0%nat ->
-  ns s1 = NsDisconnected /\ conn s1 = false /\ recon s1 = false /\ countb is_create tr1 = 0%nat.
+  ns s1 = NsDisconnected /\ conn s1 = false /\ recon s1 = false /\ rb s1 = false /\
+  countb is_create tr1 = 0%nat.
 Proof. exact session_end_stays_down_thm. Qed.
 Print Assumptions C16_session_end_stays_down.
 
-Theorem C16_keepalive : forall c h s tr, exec c init h = Some (s, tr) ->
+Theorem C16_keepalive : forall c h s tr, exec c (init c) h = Some (s, tr) ->
   (pq s = [] \/ exists x, pq s = [x] /\ (x + 1)%N = nping s /\ pth s = true /\ memN x (reg s) = true) /\
   (enabled c s ETick = true ->
      existsb is_ping_timeout (snd (step c s ETick)) = (pth s && nonempty (pq s))) /\
@@ -151,7 +226,7 @@ Print Assumptions C16_keepalive.
 (* never while every ping is answered in time: if the pong of the ping issued at a tick is delivered
    before the next tick, that next tick does not ask for a disconnect *)
 Theorem C16_keepalive_answered_never : forall c h s tr mid s1 tr1,
-  exec c init h = Some (s, tr) ->
+  exec c (init c) h = Some (s, tr) ->
   exec c s (ETick :: mid) = Some (s1, tr1) ->
   count_ev ev_tick mid = 0%nat ->
   In (EPong (nping s)) mid ->
@@ -162,22 +237,42 @@ Print Assumptions C16_keepalive_answered_never.
 
 (* witnesses against the unguarded code and against connecting before the deferred DISCONNECTED ran *)
 Theorem C16_double_connect_refuted :
-  let '(s, tr) := exec_any cfg_asis init [EConnectReq; EConnectReq] in
+  let '(s, tr) := exec_any cfg_asis (init cfg_asis) [EConnectReq; EConnectReq] in
   orphans s = 1%N /\ mon_run MIdle tr = None.
 Proof. exact double_connect_refuted. Qed.
 Print Assumptions C16_double_connect_refuted.
 
 Theorem C16_down_disconnect_refuted :
-  let '(s, tr) := exec_any cfg_asis init
+  let '(s, tr) := exec_any cfg_asis (init cfg_asis)
                     [EConnectReq; EDispConnected; ESuccess; ETick; EPeerClose; ETick] in
   mon_run MIdle tr = None /\ proj 0 tr = [AUp; ADown RNone; ADown RPing].
 Proof. exact down_disconnect_refuted. Qed.
 Print Assumptions C16_down_disconnect_refuted.
 
 Theorem C16_early_connect_refuted :
-  let '(s, tr) := exec_any cfg_fixed init
+  let '(s, tr) := exec_any cfg_fixed (init cfg_fixed)
                     [EConnectReq; EDispConnected; EPeerClose; EConnectReq; EDispConnected; ELoop] in
   ns s = NsConnected /\ nz s = NzInit /\ proj 3 tr = [AUp; AUp; ADown RNone] /\
-  exec cfg_fixed init [EConnectReq; EDispConnected; EPeerClose; EConnectReq] = None.
+  exec cfg_fixed (init cfg_fixed) [EConnectReq; EDispConnected; EPeerClose; EConnectReq] = None.
 Proof. exact early_connect_refuted. Qed.
 Print Assumptions C16_early_connect_refuted.
+
+(* witness against the variant in which the control layer consumes the DISCONNECTED of its own reboot
+   (on_disconnected returning True; exec_any_gen true): on the passive -> reboot history the application
+   sees CONNECTED twice in a row while P1, below the control layer, saw the DISCONNECTED, and the ping of
+   the passive connection that was in flight at the reboot makes the first tick of the next connection ask
+   for a disconnect although no ping was written on it.  Today's code (exec_any_gen false) does neither. *)
+Theorem C16_reboot_consumed_refuted :
+  let '(s, tr) := exec_any_gen true cfg_passive (init cfg_passive)
+                    [EConnectReq; EDispConnected; ESuccess; ETick; EKeysResult; ELoop;
+                     EDispConnected; ESuccess; ETick] in
+  proj 3 tr = [AUp; AUp] /\ proj 2 tr = [AUp; AUp] /\ proj 1 tr = [AUp; ADown RNone; AUp] /\
+  countb is_ping_timeout tr = 4%nat /\
+  ~ In (OWrite (WPing 1) true) tr /\
+  (let '(s', tr') := exec_any_gen false cfg_passive (init cfg_passive)
+                       [EConnectReq; EDispConnected; ESuccess; ETick; EKeysResult; ELoop;
+                        EDispConnected; ESuccess; ETick] in
+   proj 3 tr' = [AUp; ADown RNone; AUp] /\ countb is_ping_timeout tr' = 0%nat /\
+   In (OWrite (WPing 1) true) tr').
+Proof. exact reboot_consumed_refuted. Qed.
+Print Assumptions C16_reboot_consumed_refuted.
